@@ -41,6 +41,18 @@ def run(ctx):
     replayed += summw["lines"]
     states += rw.distinct
     transitions += rw.generated
+    # family Sigops: P2SH redeem-script and witness-script operations of the inputs count towards the budget
+    rs = L.mc(ctx, "Sigops", 4 if quick else 6)
+    if rs.invariant:
+        raise Infra("design-level counterexample in Ledger/Sigops (%s)\n%s" % (rs.invariant, rs.tail))
+    rs.require_ok("mc Sigops")
+    exs, liness, scens, ns = L.export(ctx, "Sigops", 4 if quick else 6, "sigops")
+    summs, failss = L.replay(ctx, binp, scens, liness, "sigops")
+    ctx.log("Sigops: %d transitions replayed, %d failures" % (summs["lines"], summs["fail"]))
+    L.report(ctx, "Sigops", failss, ("verdict", "utxo", "tip", "later"))
+    replayed += summs["lines"]
+    states += rs.distinct
+    transitions += rs.generated
     if not quick:
         ex3, lines3, scen3, n3 = L.export(ctx, "Rules", 5, "rules-sim", emitat=5, simulate="num=3000", depth=5)
         summ3, fails3 = L.replay(ctx, binp, scen3, lines3, "rules-sim")
@@ -62,7 +74,7 @@ def run(ctx):
     ctx.cov["recorded_random_histories"] = hist
     ctx.level = "model_checking"
     ctx.cov.update({"states": states, "transitions": transitions, "traces_validated_against_impl": replayed,
-                    "exhaustive": True, "families": ["Rules", "Wrap"], "depth": depth,
+                    "exhaustive": True, "families": ["Rules", "Wrap", "Sigops"], "depth": depth,
                     "rule": "all delivery sequences of length <= depth over the 31-block Rules universe (one valid block and per rule a block violating only that rule, two levels); every transition replayed on lib/chain with plain and compressed UTXO records"})
     ctx.assumptions += ["valid spends are built with gocoin's own ECDSA signer / anyone-can-spend scripts; script semantics are C01-C03",
                         "all blocks at minimum difficulty; subsidy eras beyond the first are not reached on-chain"]
